@@ -4,17 +4,20 @@ PROP = {
     "tool_files": ["tool_numgo.go", "tool_numgo_eval.go", "tool_numgo_exec.go", "tool_numfix.go"],
     "harness_files": ["stream_num.go"],
     "theorem_modules": ["Verif.Properties.C15"],
-    "min_theorems": 12,
+    "min_theorems": 21,
     "required_theorems": [f"Verif.Properties.C15.C15_{t}_{o}" for t in ("fix64", "ufix64") for o in ("add", "sub", "mul", "div")] +
         ["Verif.Properties.C15.C15_fix64_neg", "Verif.Properties.C15.C15_mul_is_truncation",
-         "Verif.Properties.C15.C15_div_is_truncation", "Verif.Properties.C15.C15_spec_errors"],
+         "Verif.Properties.C15.C15_div_is_truncation", "Verif.Properties.C15.C15_spec_errors"] +
+        [f"Verif.Properties.C15.C15_{n}" for n in ("roundDiv_exact", "roundDiv_within_unit", "roundDiv_towardZero", "roundDiv_awayFromZero",
+                                                    "roundDiv_nearest", "roundDiv_ties", "mulDiv_spec",
+                                                    "div128_witness", "mulDiv128_witness")],
     "streams": [
         {"name": "fix", "driver": "drv_fix",
          "quick": {"n": 600}, "thorough": {"n": 20000, "seeds": 3}},
     ],
     "exhaustive": False,
     "technique": "Lean 4 theorems about definitions regenerated from interpreter/value_fix64.go, value_ufix64.go and "
-                 "values/value_ufix64.go by the semantic Go->Lean translator (vtool gen-numfix); 128-bit types and % by the "
+                 "values/value_ufix64.go by the semantic Go->Lean translator (vtool gen-numfix); 128-bit types, % and multiplyDivide by the "
                  "`fix` correspondence stream against the exact-rational spec",
     "level_text": "Fix64 and UFix64 + - * / (and Fix64 unary minus): a Lean theorem per (type, operator) that the definition "
                   "regenerated from the Go method on every run equals the exact rational result truncated toward zero to "
@@ -24,7 +27,22 @@ PROP = {
                   "pipeline are covered by the `fix` stream only — boundary-biased raw operand pairs (0, +-1 unit, +-1.0, "
                   "min, max, factors around sqrt(max*scale), max/k, sub-unit products) through the real methods of all "
                   "four types and through scripts in both engines, judged by the exact-rational spec; for % a failure is "
-                  "accepted only when the quotient is out of range.  multiplyDivide is not covered.",
+                  "accepted only when the quotient is out of range.  multiplyDivide (all four types; the computation is the "
+                  "external library's fused multiply-divide) is covered by the `fix` stream only: the specification "
+                  "`specMulDiv` = the exact rational a*b/c rounded to a raw integer by the requested RoundingRule (towardZero, "
+                  "awayFromZero, nearestHalfAway, nearestHalfEven; towardZero when the argument is omitted), overflow / "
+                  "underflow when that is out of range, division by zero for c = 0; every rule on every triple, triples biased "
+                  "to inexact quotients, divisors of exactly +-1.0, exact ties and one-off ties, quotients that only the "
+                  "rounding pushes out of range, zero divisors, both signs, through the Go methods and through scripts in "
+                  "both engines; a disagreement is a VIOLATION.  Theorems about that specification (not about the library): "
+                  "every rule is exact when c divides a*b, stays within one unit, towardZero / awayFromZero bound the "
+                  "magnitude from the named side, the nearest rules stay within half a unit, ties go away from zero / to the "
+                  "even neighbour (C15_roundDiv_*, C15_mulDiv_spec).  Known finding (external library, found by these operations): "
+                  "the 128-bit division of onflow/fixed-point v0.1.1 assumes a quotient word of 2^64-1 where it can be 2^64-2 — "
+                  "UFix128 / Fix128 `/`, saturatingDivide and multiplyDivide then return a value one unit too large, a garbage "
+                  "value, or fail with an internal error (library panic); class fixlib-div128-quotient-word-assumed-all-ones is "
+                  "given only to answers of that shape on inputs of the defect's shape (wide divisor, quotient word 2^64-2); "
+                  "witnesses C15_div128_witness / C15_mulDiv128_witness are stated on the specification side (no model of the library).",
     "level_note": "Trusted: Lean kernel; the translator (validated by the stream); math/big modelled as Int; the library "
                   "onflow/fixed-point (compared, not modelled); harness and driver.",
     "assumptions": ["operands are values of the type (raw integer in the Int64 / UInt64 range)", "math/big is exact integer arithmetic"],
